@@ -27,7 +27,7 @@ RULE = (
     "distinct by (choices id, config, script)."
 )
 BOUND = {
-    "quick": "all scripts of length <= 2 (241) x 6 lists x 2 modes x <=3 defaults x 4 limits + 6000 random scripts of length 3-4; confirmation 3x14x2; non-interactive 200",
+    "quick": "all scripts of length <= 2 (241) x 6 lists x 2 modes x <=3 defaults x 4 limits + 6000 random scripts of length 3-4; confirmation 3x19x2; non-interactive 200",
     "thorough": "all scripts of length <= 3 (3616) x the same 132 configurations + 300000 random of length 4; confirmation and non-interactive as quick",
 }
 ASSUMPTIONS = [
@@ -269,7 +269,7 @@ def interchange(sh, lab):
 
 
 PATTERNS = ["(?i)^y", "^(yes|ja)$", "(?i)^(o|ok)"]
-CONF_ANSWERS = ["", "y", "yes", "Y", "n", "no", "ja", "ok", "O", " y ", "ny", "yy", "0", "true"]
+CONF_ANSWERS = ["", "y", "yes", "Y", "n", "no", "ja", "ok", "O", " y ", "ny", "yy", "0", "true", "YES", "Ja", "Yes", "OK", "JA"]
 
 
 def confirmations(sh, lab):
